@@ -114,6 +114,7 @@ def run_child(ctx, sc, idx):
     errf = open(os.path.join(d, "stderr"), "wb")
     p = subprocess.Popen(argv, env=env, stdout=subprocess.DEVNULL, stderr=errf)
     offset, last_change = 0, time.time()
+    t_start = last_change
     last_control, open_stops = last_change, 0
     status = {"hung": False, "stacks": ""}
     pending, early, pre = set(), set(), set()   # accepted and undelivered; delivered before its 'A' line; pending when the open stop began
@@ -180,6 +181,10 @@ def run_child(ctx, sc, idx):
             last_control = last_change = now
         elif delivered:
             last_change = now
+        if offset == 0 and now - t_start < 300:
+            # nothing written yet: the child is still starting up (loader, static initialisation under a sanitizer on a loaded machine);
+            # that is not "no progress" - after 300 s it is cut off and, having produced no event, counts as inconclusive
+            last_control = last_change = now
         stuck = (now - last_change > NO_PROGRESS_S) if open_stops <= 0 else (now - last_control > IN_STOP_S)
         if stuck:
             status["hung"] = True
